@@ -8,6 +8,7 @@ import (
 	"go/constant"
 	"go/token"
 	"go/types"
+	"strconv"
 	"strings"
 
 	"golang.org/x/tools/go/ssa"
@@ -327,10 +328,27 @@ func (sc *Scope) lookupIdent(name string) (specVal, bool) {
 		}
 	}
 	// loop specials
-	if sc.loop != nil {
-		switch name {
+	if sc.loop != nil || strings.HasPrefix(name, "$i") || strings.HasPrefix(name, "$n") {
+		li0 := sc.loop
+		base := name
+		// $i<k> / $n<k>: the counter / length of the loop with ordinal k (an
+		// enclosing range loop, named from an inner loop's invariant)
+		if len(name) > 2 && (strings.HasPrefix(name, "$i") || strings.HasPrefix(name, "$n")) {
+			if k, err := strconv.Atoi(name[2:]); err == nil {
+				for _, l := range fc.loops {
+					if l.Ord == k {
+						li0 = l
+						base = name[:2]
+					}
+				}
+			}
+		}
+		switch base {
 		case "$i":
-			li := sc.loop
+			li := li0
+			if li == nil {
+				break
+			}
 			if li.rangeIdx != nil {
 				phi := fc.lookupIn(sc.curEnv(), fc.phiVar(li.rangeIdx))
 				return specVal{t: T(SInt, "(+ %s 1)", phi.S), ty: tInt}, true
@@ -347,7 +365,10 @@ func (sc *Scope) lookupIdent(name string) (specVal, bool) {
 				}
 			}
 		case "$n":
-			li := sc.loop
+			li := li0
+			if li == nil {
+				break
+			}
 			if li.rangeInstr != nil {
 				if me := fc.mapEnums[li.rangeInstr]; me != nil {
 					return specVal{t: me.n, ty: tInt}, true
@@ -838,6 +859,25 @@ func (sc *Scope) trSel(x *ESel) (Term, types.Type) {
 			hv := fc.lookupIn(sc.curEnv(), fc.heapFieldVar(si, idx))
 			cur = Select(hv, cur)
 			curT = si.Fields[idx].Type
+			// heap well-formedness, as for instruction-level loads: a reference
+			// read from the heap was allocated before the state it is read in
+			if len(sc.bound) == 0 && fc.cur != nil && sc.mode != "global" {
+				switch curT.Underlying().(type) {
+				case *types.Pointer, *types.Map, *types.Chan:
+					al := fc.lookupIn(sc.curEnv(), "alloc")
+					fc.assume(T(SBool, "(and (>= %s 0) (<= %s %s))", cur.S, cur.S, al.S))
+					for _, ev := range fc.allocEvents {
+						inc, ok := ev.inc[fc.heapFieldVar(si, idx)]
+						if !ok {
+							inc = fmt.Sprintf("%s!e%d", fc.heapFieldVar(si, idx), ev.epoch)
+						}
+						if inc == hv.S {
+							fc.assume(T(SBool, "(<= %s %s)", cur.S, ev.before.S))
+							break
+						}
+					}
+				}
+			}
 			continue
 		}
 		si := u.StructOf(curT)
